@@ -261,7 +261,7 @@ func report(o *Options, p *Program, v *Verifier, keys []string, obls []*Obligati
 
 var propNotes = map[string]string{
 	"C01": "termination of interpreter-level loops (for/loop/forall over unbounded programs) and Go stack exhaustion are not contract-expressible here (only loop invariants, no ghost fuel); panics inside trusted stdlib callees; memory exhaustion by many moderate allocations; obligations listed under not_claimed_obligations.",
-	"C02": "operators under functional contract: pop dup exch count index roll add sub mul abs and or not length get getinterval put putinterval known def begin end (and load). eq/ne, copy, array/string/dict, maxlength, type, cvx, mark/cleartomark/counttomark, definefont/findfont/defineresource/findresource have only safety + intpWF contracts; mul overflow promotion is claimed for multiplicands -1, 0, 1 only; put/putinterval assume the target array is not the operand stack's backing array; float arithmetic treated as real arithmetic.",
+	"C02": "40 functions under functional contract (see MANIFEST level text). Not covered: eq/ne on reals, strings and names (they go through a function literal inside equal that the engine does not inline), cvx, exec, maxlength, matrix, findresource, readstring, the no-op access operators; mul overflow promotion only for multiplicands -1, 0, 1; put/putinterval/copy assume the target array is not the operand stack's backing array; contents of the dictionary built by >>; float arithmetic treated as real arithmetic.",
 	"C03": "what a procedure body does is abstract (executeOne used through its contract); iteration counts, forall operand order, bind, name-lookup order and ifelse branch selection are not under functional contract.",
 	"C04": "clauses hold while at least four bytes are in memory (composition with refill at buffer boundaries is not proved); that the string under construction never aliases the scanner buffers is an antecedent, not proved; ScanToken dispatch, numbers, names, ASCII85, comments/DSC, String.PS / Name.PS round trips not under contract.",
 	"C05": "transparency of whole programs is the modular consequence of the byte-layer contracts, not a replayed equality; hex de-armouring loop of readByteEexec, readstring byte-exactness, the regurgitate path of BeginEexec and which mode value is stored after detection are not under functional contract.",
@@ -276,7 +276,7 @@ var propNotes = map[string]string{
 	"C16": "table contents (glyph list, AGLFN, Zapf Dingbats, compat expansions) are data; decision order of the lookups, '.'-suffix and '_' splitting (strings package), final scalar-range test of the u form, FromUnicode and the name/rune round trip are not under contract.",
 	"C17": "encodeCharstrings' map loop is not claimed (inner loops in the body; only the own-key frame is proved); text/template's sorted map iteration, sort.Slice / slices.Sort producing a function of the key set, absence of time/rand/address dependence (not scanned) are trusted; bForall over a dictionary is order dependent by PLRM and outside the anchored files.",
 	"C18": "interleavings themselves are outside a sequential verifier: what is proved is freshness of everything reachable from a new interpreter and the lock discipline of names.glyphMap (fields only touched with the mutex held). Not covered: that the map published by getEncode is never written afterwards (read without the lock in encode), a module-wide scan that no package-level variable is written after init, same-results-as-sequential under concurrency.",
-	"C19": "GlyphList: length and sort keys are proved, the final order (trusted sort.Slice with the verified comparator) and duplicate-freeness are not; BuiltinEncoding, FontBBox union semantics, WidthsMapPDF agreement with GlyphWidthPDF and the matrix arithmetic of the PDF variants (treated as real arithmetic) are not under functional contract.",
+	"C19": "GlyphList: length and sort keys are proved, the final order (trusted sort.Slice with the verified comparator) and duplicate-freeness are not; BuiltinEncoding and the font-level union of FontBBox/FontBBoxPDF are not under functional contract (only order independence, C17); the matrix arithmetic of the PDF variants is treated as real arithmetic.",
 	"C20": "float64 arithmetic on coordinates is treated as exact real arithmetic (assumption 'machine arithmetic treated as mathematical'); bounds are claimed for |x| <= 10^6; that posX/posY equal the byte-level decoding of the emitted numbers rests on appendNumber's contract (value of the appended token) and is not re-parsed from the buffer inside encodeCharString.",
 }
 
